@@ -827,7 +827,7 @@ impl<P: Payload> TaskCtx<P> {
                 };
                 (Res::Obs(v), no)
             }
-            Op::RecvAll { .. } => (Res::Skipped, no),
+            Op::RecvAll { .. } | Op::MLock { .. } | Op::MTryLock { .. } => (Res::Skipped, no),
             Op::Yield => {
                 rt::yield_now();
                 (Res::Unit, no)
@@ -907,6 +907,9 @@ fn derive<P: Payload>(root: &H<P>, spec: &HandleSpec) -> H<P> {
 /// The body of the simulated execution's main task.
 pub fn run_case<P: Payload>(case: Rc<Case>, log: Log) {
     payload::reset(case.mask);
+    if case.lock_harness {
+        return crate::lockh::run_lock_case(case, log);
+    }
     let n_tasks = case.tasks.len() + 1;
     {
         let mut l = log.borrow_mut();
